@@ -253,3 +253,80 @@ pub fn search(n: usize, start: u64, count: u64, outfile: &str) {
         h.join().unwrap();
     }
 }
+
+/// `vh rejsearch start count out`: seeds for which the candidate (f, g) that key generation ACCEPTS contains a
+/// `sampler_z` call with at least 16 rejected rounds in a row (the generator stream of the seed is replayed through the
+/// reference sampler for up to 60 candidates; the real key generation then tells which candidate was accepted).
+/// Lines: `<index> trials=<t> cand=<accepted candidate>`.
+pub fn rejsearch(start: u64, count: u64, outfile: &str) {
+    use rand::{RngCore, SeedableRng};
+    let next = Arc::new(AtomicU64::new(start));
+    let out = Arc::new(Mutex::new(std::io::BufWriter::new(std::fs::File::create(outfile).unwrap())));
+    let mut hs = vec![];
+    for _ in 0..16 {
+        let (next, out) = (next.clone(), out.clone());
+        hs.push(std::thread::Builder::new().stack_size(64 << 20).spawn(move || loop {
+            let i = next.fetch_add(1, Ordering::SeqCst);
+            if i >= start + count {
+                break;
+            }
+            let mut rng = rand::rngs::StdRng::from_seed(special_seed(i));
+            let mut buf: Vec<u8> = vec![];
+            let mut pos = 0usize;
+            let mut long: Vec<(usize, usize)> = vec![];
+            for cand in 1..=60usize {
+                let mut worst = 0usize;
+                for _ in 0..(2 * 4096) {
+                    loop {
+                        while buf.len() < pos + 17 * 40 {
+                            buf.push(rng.next_u32() as u8);
+                        }
+                        match crate::c09::ref_sampler_z(0.0, 1.43300980528773, 1.43300980528773 - 0.001, &buf[pos..]) {
+                            Some((_, used)) => {
+                                worst = worst.max(used / 17);
+                                pos += used;
+                                break;
+                            }
+                            None => {
+                                for _ in 0..(17 * 40) {
+                                    buf.push(rng.next_u32() as u8);
+                                }
+                            }
+                        }
+                    }
+                }
+                if worst >= 17 {
+                    long.push((cand, worst));
+                }
+                buf.drain(..pos);
+                pos = 0;
+            }
+            if long.is_empty() {
+                continue;
+            }
+            for n in [512usize, 1024] {
+                vh::trace_start(false);
+                let r = std::panic::catch_unwind(|| {
+                    if n == 512 {
+                        let _ = falcon512::SecretKey::verif_gen_b0(special_seed(i));
+                    } else {
+                        let _ = falcon1024::SecretKey::verif_gen_b0(special_seed(i));
+                    }
+                });
+                let ev = vh::trace_take();
+                if r.is_err() {
+                    continue;
+                }
+                let drawn = ev.iter().filter(|e| e.tag == "keygen.drawn").count();
+                if let Some(&(_, t)) = long.iter().find(|&&(c, _)| c == drawn) {
+                    let mut o = out.lock().unwrap();
+                    writeln!(o, "{n} {i} long_rejection trials={t} cand={drawn}").unwrap();
+                    o.flush().unwrap();
+                }
+            }
+        }).unwrap());
+    }
+    for h in hs {
+        h.join().unwrap();
+    }
+}
